@@ -670,6 +670,7 @@ func (c *RaftCluster) processRegionHeartbeat(region *core.RegionInfo) error {
 	failpoint.Inject("concurrentRegionHeartbeat", func() {
 		time.Sleep(500 * time.Millisecond)
 	})
+	verifGate("region-heartbeat-before-lock")
 
 	var overlaps []*core.RegionInfo
 	c.Lock()
